@@ -198,6 +198,23 @@ def gen_case(rng, force=None):
                     if "pixel" not in owners and rng.random() < 0.3:
                         step_ops[mi].append(["collect"])
                     continue
+                if b == "photon" and photon3d and mi > o["model"] and rng.random() < (0.7 if force.get("regrid") else 0.2):
+                    # a later model puts the cube on another wavelength grid (spectral shift / resampling / cropping)
+                    cur = next(op for ops_ in reversed(step_ops[: mi + 1]) for op in reversed(ops_) if op[0] == "set3d")
+                    cw, cv = cur[2], cur[3]
+                    kind = rng.choice(["relabel", "extend", "slide", "crop"] if len(cw) > 1 else ["relabel", "extend"])
+                    plane = lambda j: cv[j * npix:(j + 1) * npix]  # noqa: E731
+                    fresh = lambda: [rng.randrange(1, 2000) for _ in range(npix)]  # noqa: E731
+                    if kind == "relabel":      # same values, every label shifted
+                        nw, nv = [w + 12.5 for w in cw], list(cv)
+                    elif kind == "extend":     # one more bin; the old bins keep their values
+                        nw, nv = cw + [cw[-1] + 100.0], list(cv) + fresh()
+                    elif kind == "slide":      # first bin dropped, a new last bin; common labels keep their values
+                        nw, nv = cw[1:] + [cw[-1] + 100.0], [x for j in range(1, len(cw)) for x in plane(j)] + fresh()
+                    else:                      # crop: last bin dropped
+                        nw, nv = cw[:-1], [x for j in range(len(cw) - 1) for x in plane(j)]
+                    step_ops[mi].append(["set3d", cur[1], nw, nv])
+                    continue
                 if mi > o["model"] and not (b == "photon" and photon3d) and not o["big"]:
                     r = rng.random()
                     if r < (0.4 if b == "charge" else 0.15) and o["dtype"] not in ("uint8", "float16"):
@@ -322,7 +339,13 @@ def canon_intermediate(res):
         for g in it[tkey].children:
             for m in it[tkey][g].children:
                 node = it[tkey][g][m].to_dataset()
-                out.append([int(tkey[len("time_idx_"):]), g, m, {str(k): [str(v.dtype), ints_of(v.to_numpy())] for k, v in node.data_vars.items()}])
+                rec = {}
+                for k, v in node.data_vars.items():
+                    vals = ints_of(v.to_numpy())
+                    if "wavelength" in v.dims:
+                        vals = enc_wl([float(x) for x in v["wavelength"].to_numpy()], vals)
+                    rec[str(k)] = [str(v.dtype), vals]
+                out.append([int(tkey[len("time_idx_"):]), g, m, rec])
     return out
 
 
@@ -408,9 +431,19 @@ def visible(buckets):
     return out
 
 
+def enc_wl(wl, vals):
+    """content of a multi-wavelength bucket as one integer list: [-(number of bins), labels ×8 …] ++ values — the
+    wavelength grid is part of what the bucket holds (a cube put on another grid has changed)"""
+    return [-len(wl)] + [int(round(w * 8)) for w in wl] + list(vals if vals is not None else [])
+
+
+def enc_vals(v):
+    return enc_wl(v["wl"], v["vals"]) if "wl" in v else v["vals"]
+
+
 def changed_by(before, after):
     vb, va = visible(before), visible(after)
-    return {b: v for b, v in va.items() if b not in vb or vb[b]["vals"] != v["vals"] or vb[b]["shape"] != v["shape"]}
+    return {b: v for b, v in va.items() if b not in vb or enc_vals(vb[b]) != enc_vals(v) or vb[b]["shape"] != v["shape"]}
 
 
 def photon_by_label(v, held, i, npix):
@@ -492,6 +525,10 @@ def property_predicate(case, impl):
                         f"{tag}: a debug record holds a multi-wavelength photon on a wavelength grid that differs from the buckets' "
                         f"(the grid changes from readout to readout); the flat layout raises {impl[tag]['error']} instead of returning "
                         f"the result: {impl[tag]['msg'][:100]}")
+            if tag == "debug" and "could not be broadcast together" in impl[tag]["msg"] and "error" not in impl["flat"]:
+                return ("C03:debug-fails-when-number-of-wavelength-bins-changes",
+                        "a model replaced the multi-wavelength photon cube by one with another number of wavelength bins: the run "
+                        f"without debug returns its result, with debug=True the run raises {impl[tag]['error']}: {impl[tag]['msg'][:120]}")
             return ("C03:run-failed", f"{tag}: exposure of writer probes failed: {impl[tag]['error']} {impl[tag]['msg']}")
     for tag in ("flat", "tree", "debug"):
         why = check_record(case, impl[tag], tag)
@@ -521,7 +558,7 @@ def property_predicate(case, impl):
         key = (w["step"], g, m)
         first = w["step"] not in n_first
         n_first.setdefault(w["step"], key)
-        want = {b: v["vals"] for b, v in changed_by(w["before"], w["after"]).items()}
+        want = {b: enc_vals(v) for b, v in changed_by(w["before"], w["after"]).items()}
         got = nodes.get(key)
         if got is None:
             return ("C03:debug-node-missing", f"no debug node for step {w['step']} {g}/{m}")
@@ -531,6 +568,12 @@ def property_predicate(case, impl):
             return ("C03:debug-record-values",
                     f"step {w['step']} {g}/{m}: the debug record of bucket {b} holds {got[b][:4]} but the bucket held {want[b][:4]} right "
                     f"after this model (the stored array follows later in-place writes)")
+        bp, ap = w["before"].get("photon"), w["after"].get("photon")
+        if (set(want) - set(got) == {"photon"} and bp and ap and "wl" in bp and "wl" in ap and bp["wl"] != ap["wl"]
+                and bp["vals"] == ap["vals"]):
+            return ("C03:debug-changed:grid-relabelled",
+                    f"step {w['step']} {g}/{m}: this model moved the photon cube from the wavelength grid {bp['wl']} to {ap['wl']} "
+                    f"(same values): debug recorded {sorted(got)}, no 'photon'")
         if got != want:
             cls = "first-model-of-later-step" if (first and w["step"] > 0) else "model"
             return (f"C03:debug-changed:{cls}",
@@ -544,7 +587,7 @@ def property_predicate(case, impl):
 
 # ------------------------------------------------------------------ Lean side
 def lean_snap(buckets):
-    return {b: (None if v is None else ["float64" if "wl" in v else v["dtype"], v["vals"]]) for b, v in buckets.items()}
+    return {b: (None if v is None else ["float64" if "wl" in v else v["dtype"], enc_vals(v)]) for b, v in buckets.items()}
 
 
 def lean_request(case):
@@ -559,7 +602,7 @@ def lean_request(case):
                 elif op[0] == "set3d":
                     # `Photon.to_xarray()` shows a 3-D array through `astype(None)`, i.e. as float64, in the result
                     # and in the debug record alike: the model tracks the dtype that `to_xarray` exposes
-                    lops.append(["set", "photon", "float64", op[3]])
+                    lops.append(["set", "photon", "float64", enc_wl(op[2], op[3])])
                 elif op[0] in ("add", "same", "collect"):
                     lops.append(op)
                 elif op[0] == "zero":
@@ -621,7 +664,8 @@ def compare_with_model(ck, case, impl, ans):
     if ph is not None and ph.get("wl") and all(s["buckets"]["photon"] is not None for s in flat["snaps"]):
         # multi-wavelength photons: the model has no wavelength axis; readout i is compared at the labels held in step i
         got["vars"]["photon"]["slices"] = [
-            photon_by_label(ph, s["buckets"]["photon"], i, case["rows"] * case["cols"])[0] for i, s in enumerate(flat["snaps"])]
+            enc_wl(s["buckets"]["photon"]["wl"], photon_by_label(ph, s["buckets"]["photon"], i, case["rows"] * case["cols"])[0])
+            for i, s in enumerate(flat["snaps"])]
     # buckets initialised in every step or in none are compared (dtype and slices); the model's record is only
     # claimed for these (partial presence is outside the statement and outside the comparison)
     uniform = [b for b in BUCKETS if len({s["buckets"][b] is None for s in flat["snaps"]}) == 1]
@@ -637,8 +681,10 @@ def body(ck: common.Check):
     rng = ck.rng
     k = 2 if ck.tier == "quick" else 25
     cases = []
-    for _ in range(70 * k):
+    for _ in range(90 if ck.tier == "quick" else 70 * k):
         cases.append(("random", gen_case(rng)))
+    for _ in range(6 * k):
+        cases.append(("regrid", gen_case(rng, {"photon3d": True, "regrid": True, "nsteps": rng.choice([1, 2, 3])})))
     for dt in UINTS:
         for _ in range(3 * k):
             cases.append(("image-dtypes", gen_case(rng, {"image": dt, "big": dt == "uint64", "nsteps": rng.choice([2, 3])})))
